@@ -152,6 +152,21 @@ CLAIMED = {
         "Theorems: a function wrapped in CWRAPPER_BEGIN/END never lets an exception out, for any table, core behaviour and call sequence; on the current table every function is protected or in an explicit justified list (decided by computation), with a refutation for lambda_real_double_visitor_init; each forwarder returns the C++ API value of the expected callee on the expected argument order or an error code with the state untouched (153 functions); vector/set/map container laws; state invariant after any history; Expression operators agree with core calls. Matrix/MPFR/LLVM/cse/solve wrappers are covered by the static table theorems only.",
         "Trusted: Coq kernel (vm_compute on the generated table); the translator (a changed body changes the table/fingerprint and breaks an obligation); extraction; known findings (listed): setbasic_get out of range, exceptions escaping lambda_real_double_visitor_init and basic_set_is_*subset/superset.",
         "7 (C42)"),
+    "C40": (
+        "Rocq proof over an executable heap state-machine model of the intrusive reference-counting protocol (symengine_rcp.h: make_rcp, copy/move/assign/reset/destructor, rcp_from_this, Add::from_dict dictionary stealing) + lock-step correspondence of generated handle programs against the library with the live-object counter hook, plus sanitizer replay (testing, labelled)",
+        "Unbounded theorems for every handle program from any set of library constants: no step reads or writes the counter of a freed object or decrements a zero counter (rcp_no_uaf), every counter equals the number of handles to the object (wf), an object is alive iff reachable from a handle (live_iff_reachable), after dropping all handles exactly the pre-existing constants remain (rcp_no_leak, baseline), held expressions are immutable, stealing a Mul's dictionary at use_count()==1 is unobservable (steal_safe) and threshold 2 is refuted; a cycle leaks (why acyclicity is needed). Tied after EVERY step: live-object count (hook H2), every use_count() and slot contents equal the model's prediction. Memory safety of whole API workloads (out-of-bounds, uninitialised reads) is outside the model: it is tested under ASan/UBSan/LSan, labelled testing.",
+        "Trusted: Coq kernel; extraction; the hook (symengine/basic.h, guarded by SYMENGINE_VERIF); hand transcription of symengine_rcp.h validated by correspondence; sanitizer runs are tests, not proofs.",
+        "7 (C40)"),
+    "C41": (
+        "Rocq proof over an interleaving small-step model of the two lazily written shared fields (std::atomic hash_ cache, std::atomic refcount_) for any number of threads and any schedule + correspondence of threaded workloads on the WITH_SYMENGINE_THREAD_SAFE build (sequential-equivalence and model-predicted counters), ThreadSanitizer as labelled testing",
+        "Unbounded theorems (any thread count, any schedule of atomic steps): every hash() returns __hash__() and the cache ends 0 or __hash__() (hash_cache_linearizable); no step touches the object after deletion, the counter equals the number of handles held, exactly one deletion after the last drop (refcount_safe); the non-atomic counter and a torn hash store are refuted by concrete schedules. Partial: the model covers the two fields the library writes after construction; data-race freedom of everything else rests on immutability (C40 held_immutable) and is tested with ThreadSanitizer, not proved; the C++ memory model is abstracted to sequentially consistent atomic steps.",
+        "Trusted: Coq kernel; extraction; hand transcription of basic.h/symengine_rcp.h atomics validated by threaded correspondence; sequential consistency of the std::atomic operations used (default memory order).",
+        "7 (C41)"),
+    "C43": (
+        "Rocq proof over an executable model of every function the Boost.Multiprecision backend re-implements (mp_boost.cpp, BOOSTMP section of mp_class.h) against the GMP-documented meaning + three-way correspondence: same driver on the GMP build, on the Boost build and on the extracted model",
+        "Unbounded theorems for all integers: fdiv/cdiv/tdiv quotient-remainder laws, divisibility, scan1, gcdext Bezout + GMP's normalisation (uniqueness), invert, powm (incl. negative exponent), root/rootrem/sqrt/sqrtrem/perfect_square, fib/fib2/lucnum/lucnum2, fac, bin, probab_prime (spec-relative), Jacobi/Kronecker total and equal to the definition relative to the reciprocity spec (definition checked on a small universe by kernel computation); nextprime total by Bertrand (partial: bounded proof), perfect_power partial. Tie: every case line runs on both builds and the model; GMP != Boost is a violation, model != Boost breaks the tie.",
+        "Trusted: Coq kernel (vm_compute for finite sweeps); extraction; hand transcription of mp_boost.cpp validated by correspondence; GMP itself is the reference (its documented behaviour is the spec); known findings listed in known_findings.txt.",
+        "7 (C43)"),
     "C44": (
         "Rocq proof over executable models of the MathML, LaTeX, Unicode (StringBox), Julia and SBML printers as token/line structures on the shared expression AST + byte-exact correspondence of all five printer outputs + well-formedness oracles on the library's own output",
         "Unbounded theorems: MathML output is one well-formed XML element (nested tags, valid names, escaped character data) for every modelled tree; LaTeX brace groups and \\left/\\right pairs nest with valid delimiters under the guard (names without \\ { }, no FiniteSet - refuted witness = known finding -, numeric interval ends); every StringBox operation and every history of operations preserves rectangularity; Unicode boxes are rectangular for ASCII names (non-ASCII refuted = known finding); all five printers are total on supported trees and the classes outside throw by design; coverage of all 122 type codes. The SBML round trip is checked dynamically on every expression of the fragment (needs the canonicalising constructors), not proved.",
